@@ -44,6 +44,11 @@ Inductive c20case :=
 | CKern (which : N) (xs ys : list Z) (asmBits goBits : N)
 | CSym (which : N) (bitsXY bitsYX : N)
 | CBits (threshold v1 v2 : list Z) (packed1 packed2 : list N) (hamBits jacBits : N)
+(* a binary vector store built by vectorstore.New for an index whose metric is hamming (0) or jaccard (1), whatever
+   quantiser block the schema carries: the distance between two stored points (DistanceFromPoint) and between a
+   query vector and a stored point (DistanceFromFloat), values passed multiplied by 2 as in CBits. The distance used
+   for ranking is the bit-count definition OF THE INDEX METRIC on the vectors thresholded at 0.5 *)
+| CStoreBits (metric : N) (v1 v2 : list Z) (fromPointBits fromFloatBits : N)
 | CFloatStream (ok : bool)
 | CPqTable (metric m k sl : N) (cents table : list N)
 | CPqCode (metric m k sl : N) (cents v code : list N)
@@ -115,6 +120,15 @@ Definition verdict (c : c20case) : N :=
                    (lneq p1 (pack th v1) && lneq p2 (pack th v2), 221);
                    (hamB =? f32_bits_of_small_Z (Z.of_N (hamming p1 p2)), 222);
                    (jaccard_close mi mu jacB, 223) ]
+  | CStoreBits metric v1 v2 dp df =>
+      let th := repeat 1%Z (length v1) in
+      let b1 := bits_of th v1 in let b2 := bits_of th v2 in
+      if metric =? 0 then
+        first_fail [ (dp =? f32_bits_of_small_Z (Z.of_N (hamming_def b1 b2)), 123);
+                     (df =? f32_bits_of_small_Z (Z.of_N (hamming_def b1 b2)), 123) ]
+      else
+        let '(i, u) := jaccard_def b1 b2 in
+        first_fail [ (jaccard_close i u dp, 124); (jaccard_close i u df, 124) ]
   | CFloatStream ok => first_fail [ (ok, 131) ]
   | CPqTable metric m k sl cents table =>
       pq_verdict m k sl cents (fun cz =>
